@@ -143,8 +143,76 @@ func project(prop string, o *Out) string {
 			o.eventsProj(func(ev *T) string { return ev.at(4).at(2).at(2).String() })
 	case "C19":
 		return fmt.Sprintf("r=%d ek=%d|", o.RTag, o.ErrKind) + o.traceOf(5)
+	case "C19-coarse":
+		// what the property asks of a line: it names the flag and the nature of the problem. Used only when a line of the
+		// implementation is not in the wording the strict parser knows (a reworded message is not a violation).
+		var sb strings.Builder
+		fmt.Fprintf(&sb, "r=%d ek=%d|", o.RTag, o.ErrKind)
+		for _, x := range o.Trace {
+			if x.tag() == 5 {
+				sb.WriteString(coarseLog(x))
+				sb.WriteByte(';')
+			}
+		}
+		return sb.String()
 	case "C20":
 		return detailNoStatus(o.Detail)
 	}
 	return o.T.String() // full outcome
+}
+
+// knownFlagKeys: the flag keys of the case being projected (set by the caller), longest first.
+var knownFlagKeys []string
+
+func coarseLog(x *T) string {
+	key, e := string(x.at(1).S), x.at(2)
+	class := "unknown"
+	switch e.tag() {
+	case 1:
+		class = "variation"
+	case 2:
+		class = "no-attribute"
+	case 3:
+		class = "bad-reference"
+	case 4:
+		class = "empty-rollout"
+	case 5:
+		class = "prerequisite-cycle"
+	case 6, 7:
+		class = "segment"
+	case 50:
+		line := strings.ToLower(string(e.at(1).S))
+		has := func(ws ...string) bool {
+			for _, w := range ws {
+				if !strings.Contains(line, w) {
+					return false
+				}
+			}
+			return true
+		}
+		switch {
+		case has("segment"):
+			class = "segment"
+		case has("prerequisite") && (has("circular") || has("cycle")):
+			class = "prerequisite-cycle"
+		case has("no variations") || (has("rollout") && (has("empty") || has("no "))):
+			class = "empty-rollout"
+		case has("variation"):
+			class = "variation"
+		case has("attribute") && (has("did not specify") || has("missing") || has("no attribute") || has("empty")):
+			class = "no-attribute"
+		case has("attribute") || has("reference"):
+			class = "bad-reference"
+		}
+		if key == "?" { // the strict parser could not find the key: accept any known flag key that the line spells out
+			raw := string(e.at(1).S)
+			for _, k := range knownFlagKeys {
+				if strings.Contains(raw, k) || strings.Contains(raw, fmt.Sprintf("%q", k)) {
+					key = k
+					break
+				}
+			}
+		}
+	}
+	return key + ":" + class
 }
